@@ -266,7 +266,13 @@ def exec_op(world, op):
                     holder = world[op["uncopyable"]]
                     holder._verif_handle = Opaque("h")
                     attached = holder
-                new = o.copy()
+                kw = {}
+                for key, val in (op.get("kw") or []):
+                    if key == "parent":
+                        kw[key] = _resolve(world, val, op["o"])
+                    else:
+                        kw[key] = [_resolve(world, a, op["o"]) for a in val]
+                new = o.copy(**kw)
                 world.register_tree(new)
             else:
                 raise HarnessError(f"unknown op {kind}")
@@ -332,6 +338,7 @@ class C11Session(Session):
         tw = World(self.spec)
         for op in self.history:
             exec_op(tw, op)
+            self._adopt_externals(tw)
         return tw
 
     def _twin_mirror(self):
@@ -354,6 +361,20 @@ class C11Session(Session):
                 for name in ("_children", "_sources", "_sensors", "_collections"):
                     setattr(t, name, [tw.objs[main.index(x)] for x in getattr(o, name)])
         return tw
+
+    @staticmethod
+    def _adopt_externals(world):
+        """objects that are reachable from the pool but were never handed to the caller (the half-made
+        collection of a constructor or copy that raised) become pool members, so that twins can mirror them"""
+        queue = list(world.objs)
+        while queue:
+            o = queue.pop()
+            nxt = [o._parent] if getattr(o, "_parent", None) is not None else []
+            nxt += [x for x in getattr(o, "_children", []) or [] if _is_obj(x)]
+            for x in nxt:
+                if _is_obj(x) and world.index(x) is None:
+                    world.register(x)
+                    queue.append(x)
 
     def make_twin(self):
         if self.cfg.get("twin_mode") == "rebuild":
@@ -435,6 +456,7 @@ class C11Session(Session):
         # 2. the op itself on the main world
         before = forest_digest(self.world)
         out = exec_op(self.world, op)
+        self._adopt_externals(self.world)
         self.history.append(op)
         after = forest_digest(self.world)
         self.stats["ops"] += 1
@@ -618,7 +640,7 @@ class Sim:
             for k in kinds:
                 if k in ("junk", "int", "none", "self"):
                     out.append({"kind": k})
-        elif kind == "copy" and "uncopyable" in kinds:
+        elif kind == "copy" and "uncopyable" in kinds and not op.get("kw"):
             o = w[op["o"]]
             holders = [op["o"] % n]
             if _is_coll(o):
@@ -685,7 +707,28 @@ class Sim:
             op = {"op": kind, "args": self._pick_args(rng, w, rng.choice(colls), k),
                   "override": rng.random() < cfg["p_override"]}
         elif kind == "copy":
-            op = {"op": kind, "o": rng.randrange(n)}
+            o = rng.randrange(n)
+            op = {"op": kind, "o": o}
+            if rng.random() < 0.35:
+                # copy with tree-editing keywords; the arguments may name the original itself, its parent,
+                # its children or unrelated objects
+                def pick():
+                    r = rng.random()
+                    if r < 0.3:
+                        return o
+                    obj = w[o]
+                    if r < 0.45 and obj._parent is not None:
+                        return w.index(obj._parent)
+                    if r < 0.6 and _is_coll(obj) and obj._children:
+                        return w.index(rng.choice(obj._children))
+                    return rng.randrange(n)
+                if _is_coll(w[o]) and rng.random() < 0.7:
+                    key = rng.choice(["children", "children", "collections", "sources", "sensors"])
+                    op["kw"] = [[key, [pick() for _ in range(rng.choice([1, 2, 2, 3]))]]]
+                    if rng.random() < 0.3:
+                        op["kw"].append(["parent", rng.choice(colls)])
+                else:
+                    op["kw"] = [["parent", rng.choice(colls)]]
         else:
             raise HarnessError(kind)
         vs = self._variants(rng, cfg, w, op)
